@@ -1,7 +1,7 @@
 """Per-property and per-suite configuration of the orchestrator."""
 
 # .vo files Extract.v depends on (built before extraction)
-EXTRACT_DEPS = ['Codec/FilterCase.vo', 'Agent/ReasmRs.vo', 'Agent/Model.vo', 'Agent/Monitors.vo', 'Codec/WireMon.vo', 'Codec/EncodeMsg.vo', 'Proofs/ArcHeapProofs.vo', 'Codec/AttrValue.vo', 'Codec/WireFull.vo', 'Codec/Message.vo', 'Codec/Keys.vo', 'Codec/Ignored.vo', 'Agent/AbsGlue.vo', 'Agent/RttExact.vo']
+EXTRACT_DEPS = ['Codec/FilterCase.vo', 'Agent/ReasmRs.vo', 'Agent/Model.vo', 'Agent/Monitors.vo', 'Codec/WireMon.vo', 'Codec/EncodeMsg.vo', 'Proofs/ArcHeapProofs.vo', 'Codec/AttrValue.vo', 'Codec/WireFull.vo', 'Codec/Message.vo', 'Codec/Keys.vo', 'Codec/Ignored.vo', 'Agent/AbsGlue.vo', 'Agent/Concrete.vo', 'Agent/RttExact.vo']
 
 # which constant-agreement files (Proofs/<name>.v over the generated constants) belong to which property
 CONSTS = {}
@@ -9,6 +9,12 @@ for _p in ('C01', 'C02', 'C03', 'C04', 'C09', 'C10', 'C13', 'C14', 'C16', 'C18',
     CONSTS.setdefault(_p, []).append('ConstantsCodec')
 for _p in ('C06', 'C08', 'C12', 'C15'):
     CONSTS.setdefault(_p, []).append('ConstantsAgent')
+# functions translated from /repo's current Rust text (tools/rs2v.py -> coq/Generated/Code.v) and the lemmas proving that
+# each equals the hand-written model for all arguments
+for _p in ('C01', 'C02', 'C09', 'C14', 'C18', 'C19'):
+    CONSTS.setdefault(_p, []).append('CodeAgreeCodec')
+for _p in ('C06', 'C11'):
+    CONSTS.setdefault(_p, []).append('CodeAgreeRto')
 
 SUITES = {
     'attrval': dict(bin='attrval', nontrivial=r'^C [DE] '),
